@@ -13,7 +13,7 @@ ALPHA_A = ["0", "1", "a", "b", "c", "r", "p", ".", "-", "_", "+", "!", "v"]
 LOOKALIKES = ["ſ", "K", "İ", "ı"]
 SUFFIX_ALPHA = list("019abcdeilnoprstvw.-_+!") + ["ſ", "K"]
 PREFIXES = ["1", "1.0", "1.0a", "1.0.post", "1.0+", "1!1", "1.0rc1", "1.0.dev", "1.0-", "1.0+a.", "1.0pre", "1.0.po", "1.0re", "v1.0a1.post1.de"]
-EDIT_CHARS = list("019abcprv.-_+!") + ["\n", " ", "ſ", "K", "İ", "１", "٣", "A", "Z", "x", "\t", "é"]
+EDIT_CHARS = list("019abcprv.-_+!") + ["\n", " ", "ſ", "K", "İ", "１", "٣", "A", "Z", "x", "\t", "é"] + list("=*~^<>,;:@#$%&()[]{}|\\/'\"`?") + ["\r", "\x0b", "\x1f", "\x7f", "\u00a0", "\ufeff", "\u200b"]
 MINIMUMS = (20000, 500)
 BATCH = 10000
 
@@ -116,6 +116,23 @@ def work_list(bins, strings):
     return acc
 
 
+_TOKCH = set("abcdefghijklmnopqrstuvwxyzABCDEFGHIJKLMNOPQRSTUVWXYZ0123456789.!+-_")
+
+
+def _has_token(text, tok):
+    """tok occurs in text and is not part of a longer version-like word there"""
+    if not tok:
+        return False
+    i = text.find(tok)
+    while i >= 0:
+        before = text[i - 1] if i > 0 else " "
+        after = text[i + len(tok)] if i + len(tok) < len(text) else " "
+        if before not in _TOKCH and after not in _TOKCH:
+            return True
+        i = text.find(tok, i + 1)
+    return False
+
+
 def work_check_cli(bins, strings):
     pr = core.worker_probe(bins)
     strings = [s for s in strings if in_domain(s)]
@@ -135,12 +152,9 @@ def work_check_cli(bins, strings):
         elif ok:
             txt = r["ok"]
             d = disp[i].get("d")
-            if ("Version: %s" % s) not in txt or "PEP440" not in txt:
-                bad.append(("pep440-check-text", "unexpected report text", s, r))
-            elif d != s and not txt.rstrip().endswith("(normalized: %s)" % d):
-                bad.append(("pep440-check-text", "normal form %r missing from report" % d, s, r))
-            elif d == s and "normalized" in txt:
-                bad.append(("pep440-check-text", "report claims normalisation of a normal form", s, r))
+            # "reports the same verdict and normal form": the normal form has to be in the report as a whole word; the wording around it is free
+            if not _has_token(txt, d):
+                bad.append(("pep440-check-normal-form-missing", "normal form %r is not in the report %r" % (d, txt[:200]), s, r))
     return dict(n=len(strings), bad=bad)
 
 
@@ -156,8 +170,8 @@ def work_check_binary(bins, strings):
         ok = r["exit"] == 0
         if ok != (bits[i] == "1"):
             bad.append(("pep440-check-verdict-differs", "binary exit %s, parser accepted=%s" % (r["exit"], bits[i]), s, r))
-        if not ok and r["out"]:
-            bad.append(("stdout-on-failure", "check failed but printed to stdout", s, r))
+        if ok and bits[i] == "1" and not _has_token(r["out"], disp[i].get("d")):
+            bad.append(("pep440-check-normal-form-missing", "binary check report %r does not show the normal form %r" % (r["out"][:200], disp[i].get("d")), s, r))
     return dict(n=len(strings), bad=bad)
 
 
@@ -245,6 +259,10 @@ def run(ctx):
         rand.add(mutate(gen_struct(rng), rng))
     rand = sorted(rand)
     edges = numeric_edges()
+    # affixes around valid versions, judged against the grammar: a `v` prefix is part of it, nothing else is (surrounding whitespace is outside the domain)
+    valid0 = [s_ for s_ in rand if ref.parse(s_) is not None and not s_.lower().startswith("v")][:150]
+    edges += [pre + s_ for s_ in valid0 for pre in ("v", "V", "vv", "v.", "v-", "version", "=", "==", "~=", ">=", "^", "~", "\ufeff", "r", "ver", "v!", "!")]
+    edges += [s_ + suf for s_ in valid0 for suf in (".", "+", "-", "_", "!", ".*", ".x", ",", ";", "v", "\u200b", "\x00"[:0] + "\x7f", "+.", "+a.", ".post", ".dev", "a", "rc")]
     res2 = core.pmap(work_list, [(ctx.bins, l) for l in core.split_even(rand, 16) + [edges]])
     for r in res2:
         for k in ("n", "accepted", "grammar", "normalised"):
